@@ -83,13 +83,13 @@ def dbOf (j : Json) : Except String Db := do
   for d in decls do
     for d' in decls do
       if d.prod == d'.prod && d != d' then throw "database declares a (name, version) pair twice"
-      if d.prod != d'.prod && (d.dir == d'.dir || (d.dir ++ [47]).isPrefixOf d'.dir) then
+      if d.prod != d'.prod && d.dir != noneDir && (d.dir == d'.dir || (d.dir ++ [47]).isPrefixOf d'.dir) then
         throw "product directories are not distinct and non-nested"
   pure ⟨decls, tags⟩
 
 /-- string → tagged element -/
 def tagElem (db : Db) (s : Str) : Elem :=
-  match db.decls.find? (fun d => s == d.dir || (d.dir ++ [47]).isPrefixOf s) with
+  match db.decls.find? (fun d => d.dir != noneDir && (s == d.dir || (d.dir ++ [47]).isPrefixOf s)) with
   | some d => .own d.prod (s.drop d.dir.length)
   | none => .foreign s
 
